@@ -160,7 +160,12 @@ func poolTable() (string, string, string) {
 			ast.Inspect(fd.Body, func(n ast.Node) bool {
 				if be, ok := n.(*ast.BinaryExpr); ok {
 					if id, ok := be.X.(*ast.Ident); ok && id.Name == "sz" {
-						op = be.Op.String()
+						// the right-hand side must be exactly <table>[i].maxbody, else we do not understand the test
+						if se, ok := be.Y.(*ast.SelectorExpr); ok && se.Sel.Name == "maxbody" {
+							if _, ok := se.X.(*ast.IndexExpr); ok {
+								op = be.Op.String()
+							}
+						}
 					}
 				}
 				return true
